@@ -1,6 +1,6 @@
 (* C37 — Closed dlopen libraries refuse further symbol access.  Statements only.
-   [run d (init m0 modes) h] executes history h on lib objects (in-line or out-of-line, one
-   per entry of [modes]) opened on one shared C library described by d with initial memory m0. *)
+   [run d (init m0 modes) h] executes history h on lib objects (in-line or out-of-line, owning their dlopen handle or made
+   from a caller-supplied `void *` handle: one (mode, owns-handle) pair per entry of [modes]) opened on one shared C library described by d with initial memory m0. *)
 From Coq Require Import ZArith List Bool Arith.
 Import ListNotations.
 From Cffi Require Import C37.Model C37.Proofs.
@@ -16,8 +16,8 @@ Open Scope Z_scope.
    fetch and function call through lib l is refused (ValueError in-line / ffi.error
    out-of-line; AttributeError only for an undeclared name) and the library's memory is not
    touched. *)
-Theorem C37_after_close_refused : forall d m0 modes h1 l h2 o md,
-  nth_error modes l = Some md -> op_lib o = l -> touches o = true ->
+Theorem C37_after_close_refused : forall d m0 modes h1 l h2 o md au,
+  nth_error modes l = Some (md, au) -> op_lib o = l -> touches o = true ->
   let s := fst (run d (init m0 modes) (h1 ++ OpClose l :: h2)) in
   refusal md (snd (step d s o)) /\ mem (fst (step d s o)) = mem s.
 Proof. exact after_close_refused. Qed.
@@ -26,8 +26,8 @@ Print Assumptions C37_after_close_refused.
 (* the address of a variable not taken through this lib before the close is refused as well
    (in-line mode keeps returning the cached pointer of a variable whose address WAS taken
    before the close; that is "fetched before the close") *)
-Theorem C37_after_close_addr_refused : forall d m0 modes h1 l h2 v md L1,
-  nth_error modes l = Some md ->
+Theorem C37_after_close_addr_refused : forall d m0 modes h1 l h2 v md au L1,
+  nth_error modes l = Some (md, au) ->
   let s1 := fst (run d (init m0 modes) (h1 ++ [OpClose l])) in
   nth_error (libs s1) l = Some L1 -> mem_in v (laddr L1) = false ->
   let s := fst (run d s1 h2) in
@@ -93,6 +93,16 @@ Theorem C37_gen_close_paths :
 Proof. vm_compute. repeat split; reflexivity. Qed.
 Print Assumptions C37_gen_close_paths.
 
+(* the handle reset is executed whenever the handle was non-NULL: the blocks of dl_close_lib and ffi_dlclose that
+   contain it are guarded by the NULL test ALONE, not also by the auto-close flag — so a lib object made from a
+   caller-supplied `void *` handle (ffi.dlopen(handle_cdata), auto_close = 0) is closed by ffi.dlclose() like any
+   other.  The lib's "owns its handle" flag is part of the model state (lauto) and the model's close consults these
+   facts (Model.v: inline_sets_null / ool_sets_null), for every value of the flag. *)
+Theorem C37_gen_handle_reset_unconditional :
+  backend_close_guard_auto = false /\ ool_close_guard_auto = false.
+Proof. split; reflexivity. Qed.
+Print Assumptions C37_gen_handle_reset_unconditional.
+
 (* every access path tests "closed" and returns BEFORE it calls dlsym(): cdlopen_fetch (out-of-line) and
    dl_load_function / dl_read_variable / dl_write_variable (in-line).  The model's accesses are defined from
    these facts (Model.v: usable / unchecked): without the early test, dlsym(NULL, name) searches the
@@ -110,7 +120,7 @@ Example C37_example :
   let h := [OpCall 0 1 7; OpRead 0 1; OpRead 1 1; OpAddr 0 0; OpFetch 0 0; OpFetch 1 0; OpWrite 1 1 300;
             OpClose 0; OpRead 0 1; OpWrite 0 0 1; OpFetch 0 0; OpCall 0 1 9; OpConst 0 0; OpAddr 0 0; OpAddr 0 1;
             OpClose 0; OpRead 1 1; OpClose 1; OpRead 1 1; OpFetch 1 0; OpAddr 1 0]%nat in
-  run_case (d, [5; 6], [Inline; Ool], h) =
+  run_case (d, [5; 6], [(Inline, false); (Ool, true)], h) =
   ([OInt 6; OInt 7; OInt 7; OPtr 0; OFn 0; OFn 0; OErr OverflowError;
     ONone; OErr ValueError; OErr ValueError; OErr ValueError; OErr ValueError; OInt 42; OPtr 0; OErr ValueError;
     ONone; OInt 7; ONone; OErr FFIError; OErr FFIError; OErr FFIError]%nat, [5; 7]).
